@@ -23,6 +23,8 @@ def load_module(pid: str):
 
 
 def write_evidence(mod, ctx: Ctx, wall: float, merged: dict | None = None) -> None:
+    if os.environ.get("VERIF_NO_EVIDENCE"):
+        return
     os.makedirs(os.path.join(VERIF_DIR, "evidence"), exist_ok=True)
     m = merged or {
         "evaluations": ctx.evaluations,
